@@ -134,7 +134,14 @@ func runC20(c *Ctx, idx int) {
 	inner := func() string {
 		m := c20Markers[r.Intn(len(c20Markers))]
 		role := c20Roles[r.Intn(len(c20Roles))]
-		switch r.Intn(4) {
+		switch r.Intn(6) {
+		case 4: // a marked box inside a tweet quote (the quote is moved into its placeholder as a whole)
+			markerKinds = append(markerKinds, "in-tweet")
+			nimg++
+			return `<blockquote class="twitter-tweet"><p>` + tc.toks(4) + `</p><div class="` + m + `" data-mark="1">` + tc.toks(3) + `</div>&mdash; someone <a href="https://twitter.com/user/status/9` + fmt.Sprint(nimg) + `">date</a></blockquote>`
+		case 5: // a marked span with stray text among the children of a picture
+			markerKinds = append(markerKinds, "in-picture")
+			return `<picture><span id="` + m + `" data-mark="1">` + tc.toks(2) + `</span><source srcset="/pic/p` + fmt.Sprint(nimg) + `.webp 1x">` + img() + `</picture>`
 		case 0: // the caption of a figure is marked
 			markerKinds = append(markerKinds, "in-figure")
 			at := []string{`class="` + m + `"`, `id="` + m + `"`, `role="` + role + `"`}[r.Intn(3)]
